@@ -524,6 +524,63 @@ def case_binary_real(ctx, rng, tier, op, partner, relation):
     ctx.sample({'op': op, 'partner': partner, 'relation': relation, 'chains': [list(x.names) for x in ins]})
 
 
+def case_same_object(ctx, rng, tier, op):
+    """The same Obs object in both operand slots (checklist item 4): contributions must add up."""
+    pyop, f, df = BINOPS[op]
+    dom = (0.5, 3.0)
+    a, _ = make_operand(rng, dom, tier, with_cov=bool(rng.integers(0, 2)), second_ens=bool(rng.integers(0, 2)))
+    ctx.count('L2_applications')
+    ctx.cell('L2', op, 'same-object')
+    got = pyop(a, a)
+    ga, gb = df(a.value, a.value)
+    judge_real(ctx, got, [a, a], [ga, gb], lambda v: f(v[0], v[1]), 'L2:%s:same-object' % op, '%s same object' % op)
+    # and inside one explicit call / a complex number built from one object
+    import autograd.numpy as anp
+    d = PE.derived_observable(lambda x, **kw: x[0] * anp.sin(x[1]) + x[2] ** 2, [a, a, a])
+    judge_real(ctx, d, [a, a, a], [math.sin(a.value), a.value * math.cos(a.value), 2 * a.value],
+               lambda v: v[0] * math.sin(v[1]) + v[2] ** 2, 'L2:derived_observable:same-object', 'same object in three slots')
+    z = PE.CObs(a, a)
+    w = z * z
+    if is_cobs(w):
+        judge_real(ctx, w.real, [a, a, a, a], [a.value, a.value, -a.value, -a.value], lambda v: v[0] * v[1] - v[2] * v[3], 'L2c:*:same-object:re', 'CObs(a,a)**2')
+        judge_real(ctx, w.imag, [a, a, a, a], [a.value, a.value, a.value, a.value], lambda v: v[0] * v[1] + v[2] * v[3], 'L2c:*:same-object:im', 'CObs(a,a)**2')
+    else:
+        ctx.violation('L2c:*:same-object:result-type', type(w).__name__)
+
+
+def case_scaled(ctx, rng, tier, op):
+    """Operands of very different magnitude (checklist item 6): nothing may depend on an absolute scale."""
+    pyop, f, df = BINOPS[op]
+    ca = float(rng.choice([1e-8, 1e-3, 1.0, 1e5, 1e8]))
+    cb = float(rng.choice([1e-8, 1e-3, 1.0, 1e5, 1e8])) if op != '**' else 1.0
+    rel = str(rng.choice(['identical', 'nested', 'overlapping', 'missing_replica']))
+    a0, b0 = make_pair(rng, (0.5, 3.0), (0.5, 3.0) if op != '**' else (0.5, 2.0), rel, tier)
+    a, b = a0 * ca, b0 * cb          # the scaling itself is an L1-judged operation
+    got = pyop(a, b)
+    ga, gb = df(a.value, b.value)
+    ctx.count('L2_applications')
+    ctx.cell('L2', op, 'scaled', '%g' % ca, '%g' % cb)
+    judge_real(ctx, got, [a, b], [ga, gb], lambda v: f(v[0], v[1]), 'L2:%s:scaled' % op, '%s scaled %g %g %s' % (op, ca, cb, rel))
+
+
+def case_special_numbers(ctx, rng, tier, op):
+    """Boundary partners (checklist item 9): 0, 1, -1 and integer exponents."""
+    pyop, f, df = BINOPS[op]
+    a, _ = make_operand(rng, (0.5, 3.0), tier, with_cov=bool(rng.integers(0, 2)))
+    partners = {'+': [0, 0.0, 1, -1], '-': [0, 0.0, 1], '*': [0, 0.0, 1, -1, 1.0], '/': [1, -1, 1.0], '**': [0, 1, 2, -1, 0.0, 1.0, 3]}[op]
+    for y in partners:
+        ctx.count('L2_applications')
+        ctx.cell('L2', op, 'special', repr(y))
+        got = pyop(a, y)
+        judge_real(ctx, got, [a], [df(a.value, float(y))[0]], lambda v, y=y: f(v[0], y), 'L2:%s:special-right' % op, '%s %r' % (op, y))
+        if op != '**' or y > 0:
+            if op == '/' or (op == '**' and y == 0):
+                continue
+            got = pyop(y, a)
+            judge_real(ctx, got, [a], [df(float(y), a.value)[1]] if not (op == '**' and y <= 0) else [0.0], lambda v, y=y: f(y, v[0]),
+                       'L2:%s:special-left' % op, '%r %s' % (y, op))
+
+
 def case_binary_array(ctx, rng, tier, op, position):
     pyop, f, df = BINOPS[op]
     da, db = binop_domains(op, rng)
@@ -957,6 +1014,9 @@ def plan(tier):
                 p.append(('bin:%s:%s:%s' % (op, partner, rel), 2 * m))
         for pos in ('left', 'right'):
             p.append(('arr:%s:%s' % (op, pos), 3 * m))
+        p.append(('same:%s' % op, 3 * m))
+        p.append(('scaled:%s' % op, 4 * m))
+        p.append(('special:%s' % op, 2 * m))
     for op in CBINOPS:
         for combo in COMPLEX_COMBOS:
             p.append(('cbin:%s:%s' % (op, combo), 3 * m))
@@ -1022,6 +1082,12 @@ def run_case(ctx, kind, idx, rng):
             case_binary_real(ctx, rng, tier, op, k[2] + ':' + k[3], k[4])
     elif k[0] == 'arr':
         case_binary_array(ctx, rng, tier, k[1], k[2])
+    elif k[0] == 'same':
+        case_same_object(ctx, rng, tier, k[1])
+    elif k[0] == 'scaled':
+        case_scaled(ctx, rng, tier, k[1])
+    elif k[0] == 'special':
+        case_special_numbers(ctx, rng, tier, k[1])
     elif k[0] == 'cbin':
         case_binary_complex(ctx, rng, tier, k[1], k[2])
     elif k[0] == 'cpow':
